@@ -100,6 +100,10 @@ def r16_2(ctx):
     for f, ln, how in mats:
         owner = prog.fns.get(f.parent_fn, f) if f.parent_fn else f
         ok = owner.name in HANDOVER_OK
+        if not ok and not owner.vis.startswith("pub"):
+            # a private helper that only the hand-over functions call is part of them
+            callers = {prog.fns.get(cf.parent_fn, cf).name if cf.parent_fn else cf.name for cf, cb, ct in prog.callers_of(lambda t, oid=owner.id: t.get("callee") == oid)}
+            ok = bool(callers) and callers <= set(HANDOVER_OK)
         k = f"{short(owner.id)}:{how}"
         seen[k] = seen.get(k, 0) + 1
         ctx.ob("R16.2", f"materialise:{k}#{seen[k]}", ok, f.loc(ln), f"bitwise {how} of a value in {'a hand-over function' if ok else 'a function outside the hand-over set: a second owner of the same arena count / heap data is created'}")
